@@ -204,6 +204,25 @@ func (cs *contentServer) handle(rw http.ResponseWriter, rq *http.Request) {
 				_ = c.Close()
 			}
 		}
+	case "p206half1", "p204empty1", "p203full1", "p201full1":
+		// a plain GET answered with another 2xx status: 206 carries only a part of the resource (with
+		// the part's own, matching Content-Length), 204 nothing at all, 203/201 the complete body.
+		// Only a complete resource may ever be published.
+		body, code := content, http.StatusNonAuthoritativeInfo
+		switch behaviour {
+		case "p206half1":
+			body, code = content[:half], http.StatusPartialContent
+			rw.Header().Set("Content-Range", fmt.Sprintf("bytes 0-%d/%d", half-1, len(content)))
+		case "p204empty1":
+			body, code = nil, http.StatusNoContent
+		case "p201full1":
+			code = http.StatusCreated
+		}
+		if code != http.StatusNoContent {
+			rw.Header().Set("Content-Length", strconv.Itoa(len(body)))
+		}
+		rw.WriteHeader(code)
+		_, _ = rw.Write(body)
 	case "status1":
 		http.Error(rw, "try again", http.StatusServiceUnavailable)
 	default:
